@@ -20,6 +20,7 @@ RULE = (
     "triples those indices denote (own unranking); many-triple cases: n in 20..40 with a budget covering all C(n,3) in 1140..9880 triples (incl. the default 5000) must give the estimator over every triple once, and 1025..4100 scripted indices (non-round counts) the estimator over exactly those. Non-trivial = k>=2 and the index range has an interior (C(n,k)>=3) "
     "[exhaustive (n,k) pairs], or k>=2 and index neither first nor last [sampled], or a kernel case with n>=4. "
     "distinct = distinct (kind,n,k,index/budget)."
+    ' Also: a call interrupted (KeyboardInterrupt) at every one of its lines in turn, each time on a private copy of the module, followed by a re-check of the enumeration; kernel generators in half the cases repeat or extremise words of their stream.'
 )
 ASSUMPTIONS = [
     "itertools.combinations and math.comb are the reference",
@@ -45,6 +46,9 @@ def exhaustive(tier):
     # runs of consecutive block starts C(m,k) (and their neighbours) at sizes far beyond a scorer's: 2**14 .. 2**21 items
     for k, n in [(2, 70001), (3, 20000), (3, 300000), (4, 20000), (4, 70001)] + ([(3, 2**20 + 7), (3, 2**21 - 3), (4, 300000), (2, 2**21), (4, 2**20 + 7), (3, 600011)] if tier != "quick" else []):
         yield {"kind": "blocks", "n": n, "k": k, "m0": n - 47, "count": 40}
+    # a call interrupted (Ctrl-C, a timeout signal) at each of its lines in turn, in a process that then carries on
+    for n_, k_, i_ in [(30, 3, 1234), (9, 4, 70)] + ([(200, 3, 100000), (40, 2, 500), (25, 4, 9000)] if tier != "quick" else []):
+        yield {"kind": "interrupted", "n": n_, "k": k_, "i": i_}
     for n in range(3, 41 if tier == "thorough" else 22):
         c = math.comb(n, 3)
         for budget in sorted({1, 2, c - 1, c, c + 5, max(1, c // 2)}):
@@ -388,6 +392,30 @@ def check_case(case):
             t2 = tuple(int(x) for x in unrank(i + 1, n, k))
             require(t2 == _successor(t, n), "unrank.successor", lambda: "n=%d k=%d: unrank(%d)=%r, unrank(%d)=%r" % (n, k, i, t, i + 1, t2))
         return {"nontrivial": k >= 2 and 0 < i < total - 1, "labels": ["one.k=%d" % k, "first" if i == 0 else "last" if i == total - 1 else "interior"]}
+    if kind == "interrupted":
+        from vf import interrupt
+
+        n, k, i = case["n"], case["k"], case["i"]
+        points = 0
+        for point in range(1, 2000):
+            gd_ = interrupt.private_module("batchie.scoring.gaussian_dbal")  # fresh module-level state for every scenario
+            f_ = gd_.get_combination_at_sorted_index
+            how, _ = interrupt.interrupted_at(lambda: f_(i, n, k), point)
+            if how == "completed":
+                break
+            points += 1
+            # the same process carries on: the mapping is still the bijection, for sizes below, at and above the interrupted call's
+            for n2, k2 in ((5, 2), (6, 3), (7, 4), (n, min(k, 2)), (min(n + 3, 14), 3), (12, k)):
+                total = math.comb(n2, k2)
+                idx = range(total) if total <= 600 else list(range(0, total, max(1, total // 300))) + [total - 1]
+                want = sorted((tuple(c_) for c_ in itertools.combinations(range(n2 - 1, -1, -1), k2))) if total <= 600 else None
+                for j in idx:
+                    t = tuple(int(x) for x in f_(j, n2, k2))
+                    require(len(t) == k2 and all(0 <= x < n2 for x in t) and all(a > b for a, b in zip(t, t[1:])) and _rank(t) == j, "unrank.after_interrupted_call", lambda: "after a call get_combination_at_sorted_index(%d, %d, %d) that was interrupted at its line event %d, index %d of n=%d k=%d maps to %r (rank %s)" % (i, n, k, point, j, n2, k2, t, _rank(t) if all(a > b for a, b in zip(t, t[1:])) else "undefined"))
+                if want is not None:
+                    require([tuple(int(x) for x in f_(j, n2, k2)) for j in range(total)] == want, "unrank.after_interrupted_call", lambda: "after an interrupted call (line event %d) the enumeration for n=%d k=%d is not the ascending list of descending tuples" % (point, n2, k2))
+        require(points >= 3, "harness", "no interruption point inside the call")
+        return {"nontrivial": True, "labels": ["interrupted-call"], "counts": {"interruption_points": points}}
     if kind == "blocks":
         n, k = case["n"], case["k"]
         for m in range(case["m0"], case["m0"] + case["count"]):
